@@ -79,10 +79,10 @@ def garbage(rng):
     return bytes([0xD0 | rng.below(16), 0x81, 0, 0]), "ok"                           # solicited with UNS
 
 
-class C15(Prop):
+class C15(MasterProp):
     id = "C15"
     translators = ["gen_master_tables"]
-    proof_targets = ["Master/MTaskProofs.vo", "Master/TablesAgree.vo"]
+    proof_targets = ["Master/MTaskProofs.vo", "Master/TablesAgree.vo", "Master/MFullProofs.vo"]
     property_file = "Properties/C15.v"
     theorems = []
     modelled = ("modelled by hand: master/task.rs (run_single_non_read_task, validate_non_read_response, "
@@ -90,14 +90,17 @@ class C15(Prop):
                 "master/association.rs (sequence, LastUnsolFragment, auto task states, request queue), master/tasks/* "
                 "(Master/MTask.v); object sections are opaque: the parser's verdict and the delivered items are oracle "
                 "inputs of the receive event, checked against the real parser and the real ReadHandler callbacks on "
-                "every fragment; xxh64 digest = the bytes")
+                "every fragment, and COMPUTED from the octets by the composed model of the second pass (Master/MFull.v: "
+                "App/Grammar.v + the conversion model of C10); xxh64 digest = the bytes")
     rule = ("engine master over the mock transport (whole application fragments, H6 stamps the source address): one "
             "outstanding task of every kind (direct operate, select-operate, restart, empty-response, dead-band write, "
             "single/multi-fragment read, start-up auto tasks) or none, and a response stream mixing the correct "
             "response, every wrong sequence number, foreign sources, all FIR/FIN/CON/UNS combinations under both "
             "response functions, unsolicited responses (valid, null, malformed, duplicated) at every position, "
-            "malformed objects, IIN2 rejections, garbage headers and silence; a script is non-trivial when a request "
-            "was written; the oracle reconstructs the outstanding request from the trace itself")
+            "malformed objects, IIN2 rejections, garbage headers and silence; family `objects`: delivered fragments "
+            "carrying every static and event variation, packed bits, octet strings, common time of occurrence (also "
+            "overflowing, also with a count of two), absolute time, headers no handler is called for; a script is "
+            "non-trivial when a request was written; the oracle reconstructs the outstanding request from the trace itself")
 
     # ---------------------------------------------------------------------------------------
     def noise(self, s, rng, task, n, gated=False):
@@ -454,7 +457,61 @@ class C15(Prop):
                             s.rx(response(ctrl(0, 1, 0, 0, task.seq + 1), 0, 0, b""), "ok", [], intent="complete")
             s.sleep(rng.choice([5, TIMEOUT + 20]))
             out.append(s.case(fam))
+        # family `objects` (generated after the others so that their scripts do not depend on it): fragments that are
+        # delivered to the ReadHandler carry objects from the WHOLE object library (mcommon.WideObjs: every static and
+        # event variation, packed bits, octet strings, common time of occurrence, absolute time, headers no handler is
+        # called for, dead-bands and g102); the tokens are the generator's own reading of the octets, the composed
+        # model `mfull` (second pass) must compute the same ones
+        for i in range(90 if tier == "quick" else 1500):
+            s = Script("c15_o%d" % i, {"timeout": TIMEOUT})
+            kinds, unmodelled = self.objects_family(s, rng)
+            s.sleep(rng.choice([5, TIMEOUT + 20]))
+            out.append(s.case("objects", {"object_kinds": kinds, "outside_conversion_model": unmodelled}))
         return out
+
+    def objects_family(self, s, rng):
+        kinds, unmodelled = [], False
+
+        def objs(max_headers=3):
+            nonlocal unmodelled
+            o = wide_objs(rng, max_headers)
+            kinds.extend(o.kinds)
+            unmodelled = unmodelled or o.unmodelled
+            return o
+
+        for _ in range(rng.range(1, 3)):
+            how = rng.choice(["read", "read", "unsol", "multi", "malformed"])
+            if how == "read":
+                s.user("read", rng.choice(["class:1", "class:15", "hdr:1e0106"]))
+                seq = s.take_seq()
+                o = objs()
+                s.rx(response(ctrl(1, 1, rng.chance(1, 3), 0, seq), 0, 0, o.data), "ok", o.items, intent="complete")
+            elif how == "unsol":
+                o = objs()
+                f = response(ctrl(1, 1, rng.chance(2, 3), 1, rng.below(16)), 0, 0, o.data, 0x82)
+                s.rx(f, "ok", o.items, intent="deliver")
+                if rng.chance(1, 3):
+                    s.rx(f, "ok", o.items)              # a repeat: confirmed, not delivered
+            elif how == "multi":
+                # the common time of occurrence does not survive the end of a fragment
+                s.user("read", "class:14")
+                seq = s.take_seq()
+                n = rng.range(2, 3)
+                for j in range(n):
+                    o = objs(2)
+                    if j == 0 and rng.chance(1, 2):
+                        o.add_cto(rng)
+                    fin = j == n - 1
+                    s.rx(response(ctrl(j == 0, fin, not fin, 0, seq), 0, 0, o.data), "ok", o.items,
+                         intent="complete" if fin else "deliver")
+                    if not fin:
+                        seq = s.take_seq()
+            else:
+                s.user("read", "class:1")
+                seq = s.take_seq()
+                o = objs()
+                s.rx(response(ctrl(1, 1, rng.chance(1, 2), 0, seq), 0, 0, malformed(rng, o)), "bad", [])
+        return sorted(set(kinds)), unmodelled
 
     # ---------------------------------------------------------------------------------------
     def oracle(self, case, impl):
